@@ -188,6 +188,8 @@ def universal(rng, nif=None, length=None, with_glob_changes=True):
                          icon=rng.choice(BLOBS), fname=rng.choice(BLOBS[:5] + ['4c004c00']), hwid=rng.choice(HWIDS)))
     if rng.random() < 0.3:
         ops.append('glob failrc=%d' % rng.choice([1, 22, -22, 1000]))      # a failing getter returns some other non-zero code than -1
+    if rng.random() < 0.3:
+        ops.append('glob sendok=len')           # a successful transmit answers with the byte count (the contract: negative = refused)
     if rng.random() < 0.4:
         ops.append('glob emptyrep=block')       # an empty icon / name comes as a zero-length block, not as NULL
     pool = STATIONS[:4]
@@ -310,7 +312,7 @@ def with_nesting(rng, ops, p=0.5):
 # slice of the correspondence (and of their predicates): every reachable combination of "what came before" up to depth.
 # ---------------------------------------------------------------------------------------------------------------
 
-def with_faults(rng, ops, malloc=True, send=True, getters=True, rate=0.12, getter_mask=0x1ff & ~3, mtu0=False):
+def with_faults(rng, ops, malloc=True, send=True, getters=True, rate=0.12, getter_mask=0x1ff & ~3, mtu0=False, malloc_after_seen=False):
     """a stream of operations with platform faults injected at random points before received frames (fault indices count
     from the `fault` line): single / several / all allocations refused, transmits refused, interface getters failing,
     process-wide getters failing, and the faults cleared again; the address and MTU getters (bits 0, 1) fail only when
@@ -326,11 +328,20 @@ def with_faults(rng, ops, malloc=True, send=True, getters=True, rate=0.12, gette
     kinds += ['clear'] * 2
     if mtu0:
         kinds += ['mtu0'] * 2        # the MTU query SUCCEEDS with 0 (the core falls back to 1500, like for a failing query)
+    nif = sum(1 for o in ops if o.startswith('iface '))
+    seen = set()          # interfaces that have handled a frame while no allocation fault was scheduled: their record exists
+    mactive = False
     for o in ops:
         if o.startswith('nest '):
             continue           # fault indices count calls in program order: no second thread inside a faulty stream
         if o.startswith('rx ') and rng.random() < rate:
             k = rng.choice(kinds)
+            if malloc_after_seen and k in ('m', 'mall') and len(seen) < nif:
+                k = 'clear'    # `malloc_after_seen`: memory is refused only once every interface's record exists
+            if k in ('m', 'mall'):
+                mactive = True
+            elif k == 'clear':
+                mactive = False
             if k == 'm':
                 out.append('fault malloc=%s' % ','.join(str(x) for x in sorted(rng.sample(range(1, 12), rng.choice([1, 1, 2, 3])))))
             elif k == 's':
@@ -341,12 +352,16 @@ def with_faults(rng, ops, malloc=True, send=True, getters=True, rate=0.12, gette
                 out.append('fault sendall')
             elif k == 'g':
                 out.append('set %s getfail=%d' % (o.split()[1], rng.randrange(512) & getter_mask))
+                if getter_mask & 1 and rng.random() < 0.5:
+                    out.append('glob mtuclobber=%d' % rng.choice([1, 34, 68, 100, 65535, 0]))     # the failing MTU query scribbles on its output
             elif k == 'mtu0':
                 out.append('set %s mtu=0' % o.split()[1])
             elif k == 'glob':
                 out.append('glob %s' % rng.choice(['icon=none', 'fname=none', 'icon=none fname=none hwid=-', 'icon=gen:300:1 fname=gen:40:2']))
             else:
                 out.append('fault clear')
+        if o.startswith('rx ') and not mactive:
+            seen.add(o.split()[1])
         out.append(o)
     return out
 
